@@ -84,6 +84,16 @@ func (b *c09Body) Close() error { return nil }
 
 var errC09Net = errors.New("verif: connection reset by peer")
 
+// c09TimeoutErr is what net/http reports for a body read that runs into http.Client.Timeout.
+type c09TimeoutErr struct{}
+
+func (c09TimeoutErr) Error() string {
+	return "net/http: request canceled (Client.Timeout or context cancellation while reading body)"
+}
+func (c09TimeoutErr) Timeout() bool     { return true }
+func (c09TimeoutErr) Temporary() bool   { return true }
+func (c09TimeoutErr) Is(err error) bool { return err == context.DeadlineExceeded }
+
 type c09Script struct {
 	o        c09Opts
 	ch       *verifx.Chooser
@@ -224,6 +234,12 @@ func (s *c09Script) serve(from int, cutMenu string) *http.Response {
 	body := &c09Body{data: []byte(full[:k])}
 	if kind == 1 && k < len(full) {
 		body.err = io.ErrUnexpectedEOF
+		if s.o.singleCut {
+			// what a broken body read can look like: an HTTP client's own timeout covers body reads and
+			// reports a deadline error; proxies and middle boxes produce the others.  The caller's context is
+			// alive in all of them: these are cuts of the stream, not cancellations by the client.
+			body.err = []error{io.ErrUnexpectedEOF, c09TimeoutErr{}, fmt.Errorf("read tcp: %w", context.Canceled), errC09Net}[s.ch.Free("read-error", 4)]
+		}
 	}
 	if kind == 0 && k < len(full) {
 		// which event does the cut fall into, and where?
